@@ -124,10 +124,17 @@ def _unq(text):
     return t
 
 
-def population(ctx, include_corpus=False):
-    """Derived darling impl fns of the repo's tests and examples (closures excluded)."""
+def population(ctx, include_corpus=None):
+    """Derived darling impl fns of the repo's tests and examples (closures excluded); in the
+    thorough tier also those of the generated Level-B corpus."""
     out = []
-    for c in ctx.test_crates():
+    crates = list(ctx.test_crates())
+    if include_corpus is None:
+        include_corpus = ctx.tier == "thorough"
+    if include_corpus:
+        from props import corpus
+        crates += corpus.corpus_crates(ctx)
+    for c in crates:
         for b in ctx.all_bodies(c):
             if b.kind == "Closure" or not b.derived:
                 continue
